@@ -44,6 +44,7 @@ func c02(c *Ctx) {
 	runShared(c, "C07.", "C02.R12·C07.", c07)
 	// R13 (round 8)
 	chainContains(c, "C02.R13", "Shedding", "SheddingHandler", "the shedding middleware")
+	c02setUpFirst(c)
 }
 
 func loadCall(name string) px.Pred {
@@ -1068,4 +1069,88 @@ func c02latency(c *Ctx) {
 		}
 	}
 	c.R.Check(len(bad) == 0 && n == 1, rule, "core/load.(*promise).Pass#latency", "the value added to the latency window is the elapsed time in milliseconds rounded up (never 0 for a request that took time)", posOf(c, f), strings.Join(bad, "; ")+map[bool]string{true: "", false: fmt.Sprintf(" (%d rtCounter.Add sites)", n)}[n == 1], bad, n)
+}
+
+// c02setUpFirst (C02.R14, round 8): "a disabled shedder never sheds" — and a service mode disables shedding through
+// ServiceConf.SetUp (load.Disable() for the dev/test/rt/pre modes), which only affects shedders built afterwards. In
+// every server constructor of the module that calls SetUp, SetUp therefore precedes every call that can build a shedder
+// (anything that statically reaches load.NewAdaptiveShedder / NewShedderGroup): a constructor that wires its middlewares
+// first keeps a live shedder in a mode that switched shedding off.
+func c02setUpFirst(c *Ctx) {
+	rule := "C02.R14"
+	// functions that can build a shedder
+	builds := map[*ssa.Function]bool{}
+	var all []*ssa.Function
+	for _, pk := range c.P.Pkgs {
+		all = append(all, c.P.AllFuncs(strings.TrimPrefix(pk.PkgPath, mod))...)
+	}
+	callees := func(f *ssa.Function) []*ssa.Function {
+		var out []*ssa.Function
+		for _, b := range f.Blocks {
+			for _, ins := range b.Instrs {
+				switch x := ins.(type) {
+				case ssa.CallInstruction:
+					if cal := x.Common().StaticCallee(); cal != nil {
+						out = append(out, cal)
+					}
+				case *ssa.MakeClosure:
+					if fn, ok := x.Fn.(*ssa.Function); ok {
+						out = append(out, fn)
+					}
+				}
+			}
+		}
+		return out
+	}
+	isCtor := func(f *ssa.Function) bool {
+		return f.Pkg != nil && f.Pkg.Pkg.Path() == mod+loadPkg && (f.Name() == "NewAdaptiveShedder" || f.Name() == "NewShedderGroup")
+	}
+	for changed := true; changed; {
+		changed = false
+		for _, f := range all {
+			if builds[f] {
+				continue
+			}
+			for _, cal := range callees(f) {
+				if isCtor(cal) || builds[cal] {
+					builds[f] = true
+					changed = true
+					break
+				}
+			}
+		}
+	}
+	isSetUp := func(e *px.Event) bool {
+		return e.Kind == px.EvCall && e.Call.Static != nil && e.Call.Static.Name() == "SetUp" && strings.Contains(e.Call.Static.String(), "core/service.ServiceConf")
+	}
+	n := 0
+	for _, f := range all {
+		if f.Parent() != nil || !builds[f] {
+			continue
+		}
+		if !callsInBody(f, func(cc *ssa.CallCommon) bool {
+			cal := cc.StaticCallee()
+			return cal != nil && cal.Name() == "SetUp" && strings.Contains(cal.String(), "core/service.ServiceConf")
+		}) {
+			continue
+		}
+		n++
+		ps := c.paths(rule, f, px.Config{})
+		c.forall(rule, funcDisplay(f)+"#setup-first", "ServiceConf.SetUp (which disables shedding for the dev/test/rt/pre modes) precedes every call that can build a shedder", f, ps, func(p *px.Path) (bool, string) {
+			su := p.First(isSetUp)
+			for i := range p.Events {
+				e := &p.Events[i]
+				if e.Kind != px.EvCall || e.Call.Static == nil || !(builds[e.Call.Static] || isCtor(e.Call.Static)) {
+					continue
+				}
+				if su == nil || e.Seq < su.Seq {
+					if p.Exit == px.ExitReturn || su != nil {
+						return false, "shedders can be built by " + funcDisplay(e.Call.Static) + " at " + c.P.Pos(e.Pos) + " before SetUp has run: a server in a mode that disables load shedding keeps a live shedder"
+					}
+				}
+			}
+			return true, ""
+		})
+	}
+	c.R.Min(rule, 2, "rest.NewServer, zrpc.NewServer")
 }
